@@ -298,8 +298,8 @@ class Program:
                 inline.PROTECTED[id(trees[name])] = set()
                 try:
                     # step K: constants (own and imported from other yatiml modules) are folded before anything is compared
-                    from .normalize import propagate_module_constants
-                    trees[name] = propagate_module_constants(trees[name], exts.get(name))
+                    from .normalize import propagate_module_constants, strip_casts
+                    trees[name] = propagate_module_constants(strip_casts(trees[name]), exts.get(name))
                 except Exception:                       # pragma: no cover
                     trees[name] = ast.parse(text)
                     inline.PROTECTED[id(trees[name])] = set()
